@@ -67,10 +67,18 @@ def parseOp (line : String) : Option Op :=
   | ["srange", a, b, c, w] => do some (.srange (← n? a) (← n? b) (← n? c) w)
   | ["inp", a, b, c] => do some (.inp (← n? a) (← n? b) (← n? c))
   | ["input"] => some .input
+  | ["reclaim"] => some .reclaim
+  | ["reclaimu"] => some .reclaimu
+  | ["inpr", a, b, c] => do some (.inpr (← n? a) (← n? b) (← n? c))
   | ["rest", w] => some (.rest w)
   | ["resto", w] => some (.resto w)
   | ["clones", a] => do some (.clones (← n? a))
   | ["unclone", a] => do some (.unclone (← n? a))
+  | ["unload", a] => do some (.unload (← n? a))
+  | ["newobjr", a, b] => do some (.newobjr (← n? a) (← n? b))
+  | ["replace", a, b] => do some (.replace (← n? a) (← n? b))
+  | ["fefun", a, b, c, d] => do some (.fefun (← n? a) (← n? b) (← n? c) (← n? d))
+  | ["frest", w, d] => do some (.frest w (← n? d))
   | _ => none
 
 structure Parsed where
@@ -101,6 +109,8 @@ def unitOnly : Op → Bool
   | .newstr _ _ => true
   | .clones _ => true
   | .unclone _ => true
+  | .unload _ => true
+  | .reclaimu => true
   | _ => false
 
 def lpcOnly : Op → Bool
@@ -109,6 +119,9 @@ def lpcOnly : Op → Bool
   | .rest _ => true
   | .resto _ => true
   | .srange _ _ _ _ => true
+  | .fefun _ _ _ _ => true
+  | .frest _ _ => true
+  | .reclaim => true
   | _ => false
 
 def renderRefs (h : List Cell) : String :=
@@ -120,35 +133,22 @@ def renderStats (noAllocd : Bool) (st : Stats) : String :=
   let strs := if noAllocd then s!"{st.distinctStrings},-" else s!"{st.distinctStrings},{st.allocdStrings}"
   s!"{st.numArrays},{st.arrayBytes},{st.numMappings},{st.mapNodes},{strs},{st.objects}"
 
-/-! ### program counter probe
+/-! ### programs
 
-`program_t.ref` of the harness object's program (width `NV.Gen.C06.progRefBits`; reference_prog / free_prog of
-lib/lpc/program.c): 1 for the blueprint, +1 per clone, -1 when an object structure is deallocated; free_prog
-deallocates the program when the counter reaches 0.  Kept outside the proved heap model: `clones n` creates n
-further clones (only counted), `unclone n` destructs and cleans up n of them one at a time. -/
+`program_t.ref` (reference_prog / free_prog of lib/lpc/program.c) is part of the heap model: cells `cBase` and `cProg`
+of kind `.prog` (the program of /c06/base and of /c06/uobj, which inherits it).  Holders: the blueprint objects, every
+object structure of a clone (`ob->prog`, item nVars of an object cell; the anonymous clones of `clones n` are kept in
+packs), the inherit table of an inheriting program.  The trace column `p:<uobj>/<base>` prints both counters. -/
 
-abbrev PW : Nat := NV.Gen.C06.progRefBits
+def progField (s : St) (c : Nat) : String :=
+  match s.heap[c]? with
+  | some cell => if cell.live then toString cell.ref else "x"
+  | none => "?"
 
-structure PSt where
-  pref : Nat := 1
-  pfreed : Bool := false
-  anon : Nat := 0
-
-def pInc (p : PSt) (n : Nat) : PSt := { p with pref := (p.pref + n) % 2 ^ PW }
-
-/-- n times free_prog; `none` = the freed program is touched again -/
-def pDec : PSt → Nat → Option PSt
-  | p, 0 => some p
-  | p, n + 1 =>
-    if p.pfreed then none
-    else
-      let r := (p.pref + 2 ^ PW - 1) % 2 ^ PW
-      pDec { p with pref := r, pfreed := r == 0 } n
-
-/-- follow the allocations / deallocations of object structures made by one model step -/
-def pFollow (p : PSt) (before after : Int) : Option PSt :=
-  if after > before then (if p.pfreed then none else some (pInc p (after - before).toNat))
-  else pDec p (before - after).toNat
+def progFreed (s : St) : Bool :=
+  match s.heap[cProg]? with
+  | some cell => !cell.live
+  | none => true
 
 /-- references held on the function-name strings of the harness object ("cb", "cbs<k>", "act"): one per pending
     call_out (pending_call_t.function.s) and one per add_action sentence (sentence_t.function.s) -/
@@ -162,55 +162,40 @@ def renderTexts (s : St) : String :=
     | some (_, cell) => cell.text
     | none => "-"))
 
-def renderState (noAllocd : Bool) (s : St) (p : PSt) : String :=
-  let st := { s.stats with objects := s.stats.objects + p.anon }
-  let pr := if p.pfreed then "x" else toString p.pref
+def renderState (noAllocd : Bool) (s : St) : String :=
+  let st := { s.stats with objects := s.stats.objects + anonCount s - unloadedCount s }
   -- deallocate_program also releases the strings of the program: the string columns are meaningless afterwards
-  let sts := if p.pfreed then
+  let sts := if progFreed s then
       s!"{st.numArrays},{st.arrayBytes},{st.numMappings},{st.mapNodes},-,-,{st.objects}"
     else renderStats noAllocd st
-  let fr := if p.pfreed then "-" else toString (nameRefs s)
-  s!"ok r:{renderRefs s.heap} st:{sts} p:{pr} f:{fr} t:{renderTexts s}"
+  let fr := if progFreed s then "-" else toString (nameRefs s)
+  s!"ok r:{renderRefs s.heap} st:{sts} p:{progField s cProg}/{progField s cBase} f:{fr} t:{renderTexts s}"
 
 def applies : Op → Bool
   | .newobj _ => true
+  | .newobjr _ _ => true
+  | .replace _ _ => true
   | .sweep => true
   | .clones _ => true
   | .input => true
   | _ => false
 
-def runLines (lpc : Bool) : Bool → St → PSt → List Op → List String → List String
-  | _, _, _, [], acc => acc.reverse
-  | na, s, p, op :: ops, acc =>
-    if (lpc && unitOnly op) || (!lpc && lpcOnly op) then runLines lpc na s p ops ("skip" :: acc)
-    else match op with
-      | .clones n =>
-        if p.pfreed then ("uaf" :: acc).reverse
-        else
-          let p := { (pInc p n) with anon := p.anon + n }
-          runLines lpc true s p ops (renderState true s p :: acc)
-      | .unclone n =>
-        if p.anon < n || !s.dlist.isEmpty then runLines lpc na s p ops ("skip" :: acc)
-        else match pDec p n with
-          | none => ("uaf" :: acc).reverse
-          | some p' =>
-            let p' := { p' with anon := p.anon - n }
-            runLines lpc na s p' ops (renderState na s p' :: acc)
-      | op =>
-        match step s op with
-        | .ok s' =>
-          match pFollow p s.stats.objects s'.stats.objects with
-          | none => ("uaf" :: acc).reverse
-          | some p' =>
-            let na := na || applies op
-            runLines lpc na s' p' ops (renderState na s' p' :: acc)
-        | .skip => runLines lpc na s p ops ("skip" :: acc)
-        | .fail e => (e.name :: acc).reverse
+def runLines (lpc : Bool) : Bool → St → List Op → List String → List String
+  | _, _, [], acc => acc.reverse
+  | na, s, op :: ops, acc =>
+    if (lpc && unitOnly op) || (!lpc && lpcOnly op) then runLines lpc na s ops ("skip" :: acc)
+    else
+      match step s op with
+      | .ok s' =>
+        let na := na || applies op
+        runLines lpc na s' ops (renderState na s' :: acc)
+      | .skip => runLines lpc na s ops ("skip" :: acc)
+      | .fail e => (e.name :: acc).reverse
 
 def runModel (lines : List String) : List String :=
   let p := parseCase lines
   if !p.bad.isEmpty then p.bad.map (fun l => s!"bad-line {l}")
-  else runLines p.lpc p.lpc St.init {} p.ops []
+  else runLines p.lpc p.lpc St.init p.ops []
 
 def runJudge (body : List String) : List String :=
   let (input, impl) := splitJudge body
